@@ -1224,7 +1224,7 @@ fn deser_both<H: HX>(q: &mut AnyQ<H>, text: &str, k: Kind) -> String {
 
 /// a deserializer for sequences only: it hands the visitor a `SeqAccess` that announces `hint` remaining elements and
 /// then yields `vals` (what a format with a length prefix does when the prefix does not match the payload)
-struct Announcing { vals: Vec<serde_json::Value>, hint: usize }
+pub struct Announcing { pub vals: Vec<serde_json::Value>, pub hint: usize }
 struct AnnouncingSeq { it: std::vec::IntoIter<serde_json::Value>, hint: usize }
 impl<'de> serde::de::SeqAccess<'de> for AnnouncingSeq {
     type Error = serde_json::Error;
